@@ -450,34 +450,39 @@ func init() {
 	props["C05"] = func(c *Ctx) {
 		c.R.Rule = wRuleCommon + "Oracle: the real verdict under every order equals well-foundedness, and every error wraps ErrModelCycle, ErrTupleCycle or ErrInvalidModel. non-trivial = distinct model with a cycle-related or intersection-related rejection, or accepted with an Infinite weight"
 		rng := rand.New(rand.NewSource(c.Seed))
-		cases := evalWCases(c, rng, genWModels(rng, c.Pick(1200, 12000)), 2, c.Pick(5, 7), c.Pick(16, 40))
-		for _, wc := range cases {
-			c.R.Evaluations++
-			c.R.Programs++
-			c.R.DisagreementsChecked++
-			c.DistN("builds", len(wc.all()))
-			if wc.spec.Reject {
-				c.Dist("spec_" + strings.Trim(wc.spec.Kinds, "()"))
-				if strings.Contains(wc.spec.Kinds, "cycle") || strings.Contains(wc.spec.Kinds, "no-terminal") {
-					c.Nontrivial(wc.canon)
+		wModels := genWModels(rng, c.Pick(1200, 12000))
+		exh, smp := c.Pick(5, 7), c.Pick(16, 40)
+		// evaluated in batches so that the builds of earlier models can be dropped (flat memory in the thorough tier)
+		for start := 0; start < len(wModels); start += 400 {
+			cases := evalWCases(c, rng, wModels[start:min(start+400, len(wModels))], 2, exh, smp)
+			for _, wc := range cases {
+				c.R.Evaluations++
+				c.R.Programs++
+				c.R.DisagreementsChecked++
+				c.DistN("builds", len(wc.all()))
+				if wc.spec.Reject {
+					c.Dist("spec_" + strings.Trim(wc.spec.Kinds, "()"))
+					if strings.Contains(wc.spec.Kinds, "cycle") || strings.Contains(wc.spec.Kinds, "no-terminal") {
+						c.Nontrivial(wc.canon)
+					}
+				} else {
+					c.Dist("spec_accepts")
 				}
-			} else {
-				c.Dist("spec_accepts")
-			}
-			for i, r := range wc.all() {
-				if strings.HasPrefix(r.Err, "panic:") || strings.HasPrefix(r.Err, "other:") {
-					c.OracleFail("c05:error-class", wInput(wc, i), "builder fails with something other than the three sentinel errors: "+r.Err, r.Err)
-					break
-				}
-				switch d := wc.classify(r, "verdict"); d {
-				case "":
-				case "kf":
-					c.KnownHit("KF-C04-operand-grouping", wInput(wc, i))
-				default:
-					c.OracleFail("c05:verdict", wInput(wc, i), d, r.Err)
-				}
-				if d := wc.classify(r, "verdict"); d != "" && d != "kf" {
-					break
+				for i, r := range wc.all() {
+					if strings.HasPrefix(r.Err, "panic:") || strings.HasPrefix(r.Err, "other:") {
+						c.OracleFail("c05:error-class", wInput(wc, i), "builder fails with something other than the three sentinel errors: "+r.Err, r.Err)
+						break
+					}
+					switch d := wc.classify(r, "verdict"); d {
+					case "":
+					case "kf":
+						c.KnownHit("KF-C04-operand-grouping", wInput(wc, i))
+					default:
+						c.OracleFail("c05:verdict", wInput(wc, i), d, r.Err)
+					}
+					if d := wc.classify(r, "verdict"); d != "" && d != "kf" {
+						break
+					}
 				}
 			}
 		}
@@ -487,52 +492,57 @@ func init() {
 		c.R.Rule = wRuleCommon + "Oracles on every accepted build: relation and operator node weights equal the specification's (exact key sets, Infinite exactly where the specification has it); every edge weight equals its " +
 			"target's weight plus one for direct/TTU edges; no 'R#' placeholder key; no relation or operator with an empty weight map. non-trivial = distinct accepted model with an operator node or an Infinite weight"
 		rng := rand.New(rand.NewSource(c.Seed))
-		cases := evalWCases(c, rng, genWModels(rng, c.Pick(1200, 12000)), 2, c.Pick(4, 6), c.Pick(12, 30))
-		for _, wc := range cases {
-			c.R.Evaluations++
-			c.R.Programs++
-			c.R.DisagreementsChecked++
-			for i, r := range wc.all() {
-				if r.Err != "" {
-					continue
-				}
-				c.Dist("accepted_builds")
-				if strings.Contains(r.Full, "@0") || strings.Contains(r.Full, "2147483647") {
-					c.Nontrivial(wc.canon)
-				}
-				stop := false
-				for n, w := range r.Weights {
-					if len(w) == 0 {
-						c.OracleFail("c04:empty", wInput(wc, i), "node "+n+" is left with an empty weight map", "")
+		wModels := genWModels(rng, c.Pick(1200, 12000))
+		exh, smp := c.Pick(4, 6), c.Pick(12, 30)
+		// evaluated in batches so that the builds of earlier models can be dropped (flat memory in the thorough tier)
+		for start := 0; start < len(wModels); start += 400 {
+			cases := evalWCases(c, rng, wModels[start:min(start+400, len(wModels))], 2, exh, smp)
+			for _, wc := range cases {
+				c.R.Evaluations++
+				c.R.Programs++
+				c.R.DisagreementsChecked++
+				for i, r := range wc.all() {
+					if r.Err != "" {
+						continue
+					}
+					c.Dist("accepted_builds")
+					if strings.Contains(r.Full, "@0") || strings.Contains(r.Full, "2147483647") {
+						c.Nontrivial(wc.canon)
+					}
+					stop := false
+					for n, w := range r.Weights {
+						if len(w) == 0 {
+							c.OracleFail("c04:empty", wInput(wc, i), "node "+n+" is left with an empty weight map", "")
+							stop = true
+						}
+						for k := range w {
+							if strings.HasPrefix(k, "R#") {
+								c.OracleFail("c04:placeholder", wInput(wc, i), "unresolved cycle placeholder "+k+" visible on node "+n, "")
+								stop = true
+							}
+						}
+					}
+					if strings.Contains(r.Full, "\"R#") && !stop {
+						c.OracleFail("c04:placeholder", wInput(wc, i), "unresolved cycle placeholder visible on an edge", "")
 						stop = true
 					}
-					for k := range w {
-						if strings.HasPrefix(k, "R#") {
-							c.OracleFail("c04:placeholder", wInput(wc, i), "unresolved cycle placeholder "+k+" visible on node "+n, "")
+					if r.EdgeBad != "" && !stop {
+						c.OracleFail("c04:edge-rule", wInput(wc, i), r.EdgeBad, "")
+						stop = true
+					}
+					if !stop {
+						switch d := wc.classify(r, "weights"); d {
+						case "":
+						case "kf":
+							c.KnownHit("KF-C04-operand-grouping", wInput(wc, i))
+						default:
+							c.OracleFail("c04:weights", wInput(wc, i), d, "")
 							stop = true
 						}
 					}
-				}
-				if strings.Contains(r.Full, "\"R#") && !stop {
-					c.OracleFail("c04:placeholder", wInput(wc, i), "unresolved cycle placeholder visible on an edge", "")
-					stop = true
-				}
-				if r.EdgeBad != "" && !stop {
-					c.OracleFail("c04:edge-rule", wInput(wc, i), r.EdgeBad, "")
-					stop = true
-				}
-				if !stop {
-					switch d := wc.classify(r, "weights"); d {
-					case "":
-					case "kf":
-						c.KnownHit("KF-C04-operand-grouping", wInput(wc, i))
-					default:
-						c.OracleFail("c04:weights", wInput(wc, i), d, "")
-						stop = true
+					if stop {
+						break
 					}
-				}
-				if stop {
-					break
 				}
 			}
 		}
@@ -542,32 +552,37 @@ func init() {
 		c.R.Rule = wRuleCommon + "Oracles on every accepted build: the wildcard list of each relation/operator node equals the set of public types reachable from it (specification), has no duplicates; each edge's list is " +
 			"its target's (or {T} into T:*). non-trivial = distinct accepted model with a wildcard restriction"
 		rng := rand.New(rand.NewSource(c.Seed))
-		cases := evalWCases(c, rng, genWModels(rng, c.Pick(1200, 12000)), 2, c.Pick(4, 6), c.Pick(12, 30))
-		for _, wc := range cases {
-			c.R.Evaluations++
-			c.R.Programs++
-			c.R.DisagreementsChecked++
-			for i, r := range wc.all() {
-				if r.Err != "" {
-					continue
-				}
-				if strings.Contains(wc.canon, " true ") {
-					c.Nontrivial(wc.canon)
-				}
-				if r.EdgeWildBad != "" {
-					c.OracleFail("c11:edge-wildcards", wInput(wc, i), r.EdgeWildBad, "")
+		wModels := genWModels(rng, c.Pick(1200, 12000))
+		exh, smp := c.Pick(4, 6), c.Pick(12, 30)
+		// evaluated in batches so that the builds of earlier models can be dropped (flat memory in the thorough tier)
+		for start := 0; start < len(wModels); start += 400 {
+			cases := evalWCases(c, rng, wModels[start:min(start+400, len(wModels))], 2, exh, smp)
+			for _, wc := range cases {
+				c.R.Evaluations++
+				c.R.Programs++
+				c.R.DisagreementsChecked++
+				for i, r := range wc.all() {
+					if r.Err != "" {
+						continue
+					}
+					if strings.Contains(wc.canon, " true ") {
+						c.Nontrivial(wc.canon)
+					}
+					if r.EdgeWildBad != "" {
+						c.OracleFail("c11:edge-wildcards", wInput(wc, i), r.EdgeWildBad, "")
+						break
+					}
+					switch d := wc.classify(r, "wild"); d {
+					case "":
+						continue
+					case "kf":
+						c.KnownHit("KF-C04-operand-grouping", wInput(wc, i))
+						continue
+					default:
+						c.OracleFail("c11:wildcards", wInput(wc, i), d, "")
+					}
 					break
 				}
-				switch d := wc.classify(r, "wild"); d {
-				case "":
-					continue
-				case "kf":
-					c.KnownHit("KF-C04-operand-grouping", wInput(wc, i))
-					continue
-				default:
-					c.OracleFail("c11:wildcards", wInput(wc, i), d, "")
-				}
-				break
 			}
 		}
 		c.Sample(map[string]any{"dsl": "define a: [user:*] / define b: a or b from p", "wildcards": "doc#b [user]"})
